@@ -42,6 +42,79 @@ func strLitsInFunc(repo string, e *emitter, dir, fn, coq string) {
 	fmt.Fprintf(&e.b, "Definition %s : list string := [%s].\n", coq, strings.Join(lits, "; "))
 }
 
+// exprString renders a selector chain such as inv.Env.Freeze ("" if the
+// expression is anything else).
+func exprString(x ast.Expr) string {
+	switch x := x.(type) {
+	case *ast.Ident:
+		return x.Name
+	case *ast.SelectorExpr:
+		if p := exprString(x.X); p != "" {
+			return p + "." + x.Sel.Name
+		}
+	}
+	return ""
+}
+
+// callsInFunc lists, in source order, the functions and methods called in the
+// body of a function (selector chains and plain identifiers only).
+func callsInFunc(repo string, e *emitter, dir, fn, coq string) {
+	p, err := loadPkg(repo, dir)
+	if err != nil {
+		e.fail("%v", err)
+		return
+	}
+	fd := p.findFunc(fn)
+	if fd == nil || fd.Body == nil {
+		e.fail("function %s.%s not found", dir, fn)
+		return
+	}
+	var calls []string
+	ast.Inspect(fd.Body, func(n ast.Node) bool {
+		if c, ok := n.(*ast.CallExpr); ok {
+			if s := exprString(c.Fun); s != "" {
+				calls = append(calls, `"`+s+`"%string`)
+			}
+		}
+		return true
+	})
+	fmt.Fprintf(&e.b, "Definition %s : list string := [%s].\n", coq, strings.Join(calls, "; "))
+}
+
+// compositeFieldsInFunc lists, for every keyed composite literal of type typ
+// (T{...} or &T{...}) in the body of a function, the field names it sets, in
+// source order.
+func compositeFieldsInFunc(repo string, e *emitter, dir, fn, typ, coq string) {
+	p, err := loadPkg(repo, dir)
+	if err != nil {
+		e.fail("%v", err)
+		return
+	}
+	fd := p.findFunc(fn)
+	if fd == nil || fd.Body == nil {
+		e.fail("function %s.%s not found", dir, fn)
+		return
+	}
+	var lits []string
+	ast.Inspect(fd.Body, func(n ast.Node) bool {
+		cl, ok := n.(*ast.CompositeLit)
+		if !ok || exprString(cl.Type) != typ {
+			return true
+		}
+		var fields []string
+		for _, el := range cl.Elts {
+			if kv, ok := el.(*ast.KeyValueExpr); ok {
+				if k := exprString(kv.Key); k != "" {
+					fields = append(fields, `"`+k+`"%string`)
+				}
+			}
+		}
+		lits = append(lits, "["+strings.Join(fields, "; ")+"]")
+		return true
+	})
+	fmt.Fprintf(&e.b, "Definition %s : list (list string) := [%s].\n", coq, strings.Join(lits, "; "))
+}
+
 func init() {
 	specs = append(specs, spec{"C08_params.v", func(repo string, e *emitter) {
 		// task name formats and separators of (*compiler).compile
@@ -52,6 +125,12 @@ func init() {
 		// partitioner: numPartition == 0 means "not a shuffle", NumPartition() is then 1
 		intLitsInFunc(repo, e, "exec", "partitioner.IsShuffle", "is_shuffle_literals")
 		intLitsInFunc(repo, e, "exec", "partitioner.NumPartition", "num_partition_literals")
+		// fix sites. (1) the Task literals of compile: the first is the re-shuffle
+		// task over a Result, which must set NumPartition, Partitioner, Combiner
+		// and CombineKey like the second (the pipeline task) does.
+		compositeFieldsInFunc(repo, e, "exec", "compiler.compile", "Task", "compile_task_literals")
+		// (2) addInvocation must freeze the environment it stores for transport
+		callsInFunc(repo, e, "exec", "bigmachineExecutor.addInvocation", "add_invocation_calls")
 		// TaskDep.NumTask: no head -> 0, a group -> its size, else 1
 		intLitsInFunc(repo, e, "exec", "TaskDep.NumTask", "num_task_literals")
 	}})
